@@ -3,6 +3,7 @@ package main
 import (
 	"fmt"
 	"go/token"
+	"strings"
 
 	"golang.org/x/tools/go/ssa"
 )
@@ -22,7 +23,7 @@ import (
 //	clear: in iteration T, data[end + 3T + k] = (' ', defaultFg, defaultBg)[k], for viewportWidth iterations
 //
 // Returns a description of what is wrong for the move and for the clear ("" = ok).
-func (x *vtx) scrollArmForms() (moveBad, clearBad string) {
+func (x *vtx) scrollArmForms() (moveBad, clearBad, pairBad string) {
 	m := x.m
 	g := newIG(m, x.lf, nil)
 	z := x.polyizer()
@@ -64,6 +65,18 @@ func (x *vtx) scrollArmForms() (moveBad, clearBad string) {
 		return base.add(z.Of(ia.Index), 1), true
 	}
 	one := func(p Poly) bool { k, ok := p.isConst(); return ok && k == 1 }
+	// the blocks of a loop, with the blocks it is entered from (a rotated loop's
+	// entry guard sits there)
+	moveBlocks, clearBlocks := map[*ssa.BasicBlock]bool{}, map[*ssa.BasicBlock]bool{}
+	region := func(set map[*ssa.BasicBlock]bool, lf *LoopForm) {
+		set[lf.Header] = true
+		for b := range lf.Body {
+			set[b] = true
+		}
+		for _, p := range lf.Header.Preds {
+			set[p] = true
+		}
+	}
 	// ---- the move
 	moves := 0
 	for n, in := range g.Ins {
@@ -104,6 +117,7 @@ func (x *vtx) scrollArmForms() (moveBad, clearBad string) {
 				okA = ok1 && ok2
 			}
 			trips, tripsOK := lf.Trips, lf.TripsOK
+			region(moveBlocks, lf)
 			lf.Done()
 			switch {
 			case !okA || !one(dStep) || !one(sStep):
@@ -127,6 +141,7 @@ func (x *vtx) scrollArmForms() (moveBad, clearBad string) {
 				continue
 			}
 			moves++
+			moveBlocks[t.Block()] = true
 			lo := polyConst(0)
 			if d.Low != nil {
 				lo = z.Of(d.Low)
@@ -197,9 +212,33 @@ func (x *vtx) scrollArmForms() (moveBad, clearBad string) {
 			}
 			cl.trips = lf.Trips
 			cl.ok = cl.ok && lf.TripsOK
+			region(clearBlocks, lf)
 			lf.Done()
 		}
 		clears = append(clears, cl)
+	}
+	// ---- the pairing: the lines are moved and the last line is blanked on
+	// exactly the same paths through lf
+	if len(moveBlocks) > 0 && len(clearBlocks) > 0 {
+		in := func(set map[*ssa.BasicBlock]bool) func(int) bool {
+			return func(n int) bool { b := g.Ins[n].Block(); return b != nil && g.Ins[n].Parent() == x.lf && set[b] }
+		}
+		isMove, isClear, ret := in(moveBlocks), in(clearBlocks), isRet(g)
+		some := func(set map[*ssa.BasicBlock]bool) []int {
+			var out []int
+			for n := range g.Ins {
+				if in(set)(n) {
+					out = append(out, n)
+				}
+			}
+			return out
+		}
+		if p := g.Path(some(moveBlocks), nil, isClear, func(n int) bool { return !isClear(n) && ret(n) }); p != nil {
+			pairBad = "after the viewport's lines were moved up lf can return without blanking the new last line (" + strings.Join(g.where(p, 6), " ") + ")"
+		} else if p := g.Path(append(x.storesOf(g, x.viewportY), x.storesOf(g, x.cursorY)...), nil, nil, isClear); p != nil {
+			pairBad = "a viewport line is blanked after the cursor or the viewport was moved down, where nothing scrolls out of the buffer (" + strings.Join(g.where(p, 6), " ") + ")"
+		}
+		_ = isMove
 	}
 	want := map[int64]string{0: "32", 1: "defaultFg", 2: "defaultBg"}
 	if len(clears) != 3 {
